@@ -45,6 +45,15 @@ func runSolver(name, file string, timeoutS int) SolveResult {
 	out, _ := cmd.CombinedOutput()
 	el := time.Since(t0).Seconds()
 	s := string(out)
+	// skip solver warnings in front of the verdict
+	for strings.HasPrefix(strings.TrimSpace(s), "WARNING") {
+		s = strings.TrimSpace(s)
+		if i := strings.IndexByte(s, '\n'); i >= 0 {
+			s = s[i+1:]
+		} else {
+			s = ""
+		}
+	}
 	first := strings.TrimSpace(s)
 	if i := strings.IndexByte(first, '\n'); i >= 0 {
 		first = strings.TrimSpace(first[:i])
